@@ -483,9 +483,11 @@ def check_ecdh(op, sc, b, kind="bytes"):
 def replay(rec):
     from ecdsa import curves as C, SigningKey, VerifyingKey
     i = rec["input"]
+    if not isinstance(i, dict) or "entry" not in i:
+        K.cannot_replay("record without input.entry")
     if i["entry"] == "from_public_point_infinity":
         from ecdsa import ellipticcurve as EC
-        cv = next(c for c in C.curves if c.name == i["curve"])
+        cv = next((c for c in C.curves if c.name == i["curve"]), None) or K.cannot_replay("unknown curve %r" % (i["curve"],))
         try:
             VerifyingKey.from_public_point(EC.INFINITY, cv, validate_point=i["validate_point"])
             return True
@@ -497,7 +499,7 @@ def replay(rec):
     if "signature" in i:
         import hashlib
         from ecdsa import util as U, ellipticcurve as EC
-        cv = next(c for c in C.curves if c.name == i["curve"])
+        cv = next((c for c in C.curves if c.name == i["curve"]), None) or K.cannot_replay("unknown curve %r" % (i["curve"],))
         vk = VerifyingKey.from_public_point(EC.PointJacobi(cv.curve, i["x"], i["y"], 1, cv.order), cv, hashlib.sha256, validate_point=False)
         dec = i["decoder"]
         f = {"string": U.sigdecode_string, "strings": U.sigdecode_strings, "der": U.sigdecode_der}[dec]
@@ -521,5 +523,11 @@ def replay(rec):
         except Exception as e:  # noqa
             return common.errname(e) not in DOCUMENTED
         return False
-    cv = next((c for c in C.curves if c.name == i["curve"]), C.curves[0])
+    cv = next((c for c in C.curves if c.name == i.get("curve")), None)
+    if i["entry"] not in FMT or "bytes" not in i:
+        K.cannot_replay("unknown entry %r" % (i["entry"],))
+    if cv is None:
+        if i["entry"] in ("vk_from_string", "sk_from_string"):
+            K.cannot_replay("unknown curve %r" % (i.get("curve"),))
+        cv = C.curves[0]            # the DER / PEM loaders do not take a curve
     return check(i["entry"], cv, bytes.fromhex(i["bytes"]), i.get("argument_type", "bytes")) is not None
